@@ -172,8 +172,8 @@ func (o *c04) State(c *core.Ctx) {
 		r := get("/api/v1/chain/tip")
 		var ts []struct {
 			Header tipHdr `json:"header"`
-			State  string  `json:"state"`
-			Height int32   `json:"height"`
+			State  string `json:"state"`
+			Height int32  `json:"height"`
 		}
 		if r.Code != 200 || !r.JSON(&ts) {
 			o.viol(c, "tips.status", "GET /chain/tip", 200, fmt.Sprintf("%d %s", r.Code, trunc(r.Body)))
@@ -233,8 +233,8 @@ func (o *c04) State(c *core.Ctx) {
 		r := get("/api/v1/chain/tip/longest")
 		var x struct {
 			Header tipHdr `json:"header"`
-			State  string  `json:"state"`
-			Height int32   `json:"height"`
+			State  string `json:"state"`
+			Height int32  `json:"height"`
 		}
 		if r.Code != 200 || !r.JSON(&x) || x.Header.Hash != best.Hash || x.Height != best.Height || x.State != core.LLongest {
 			o.viol(c, "tiplongest", "GET /chain/tip/longest", best.Hash, fmt.Sprintf("%d %s", r.Code, trunc(r.Body)))
